@@ -37,6 +37,7 @@ type Store interface {
 	// NextOffset returns the next offset to assign for a topic/partition.
 	NextOffset(ctx context.Context, topic string, partition int32) (int64, error)
 	// UpdateOffsets records the last persisted offset so future appends continue from there.
+	// The recorded offset never moves backwards: a lastOffset behind it is ignored.
 	UpdateOffsets(ctx context.Context, topic string, partition int32, lastOffset int64) error
 	// CommitConsumerOffset persists a consumer group offset.
 	CommitConsumerOffset(ctx context.Context, group, topic string, partition int32, offset int64, metadata string) error
@@ -272,7 +273,10 @@ func (s *InMemoryStore) UpdateOffsets(ctx context.Context, topic string, partiti
 	}
 	s.mu.Lock()
 	defer s.mu.Unlock()
-	s.offsets[partitionKey(topic, partition)] = lastOffset + 1
+	// The published end offset only moves forward; see EtcdStore.UpdateOffsets.
+	if key := partitionKey(topic, partition); lastOffset+1 > s.offsets[key] {
+		s.offsets[key] = lastOffset + 1
+	}
 	return nil
 }
 
